@@ -879,7 +879,9 @@ class NestedExtensionArray(ExtensionArray):
             struct_dict = {}
             for field in fields:
                 struct_dict[field] = chunk.field(field)
-            struct_array = pa.StructArray.from_arrays(struct_dict.values(), struct_dict.keys())
+            struct_array = pa.StructArray.from_arrays(
+                struct_dict.values(), struct_dict.keys(), mask=chunk.is_null()
+            )
             chunks.append(struct_array)
         pa_array = pa.chunked_array(chunks)
 
@@ -992,7 +994,9 @@ class NestedExtensionArray(ExtensionArray):
                 struct_dict[pa_field.name] = chunk.field(pa_field.name)
             struct_dict[field] = pa_array[sl]
 
-            struct_array = pa.StructArray.from_arrays(struct_dict.values(), struct_dict.keys())
+            struct_array = pa.StructArray.from_arrays(
+                struct_dict.values(), struct_dict.keys(), mask=chunk.is_null()
+            )
             chunks.append(struct_array)
         chunked_array = pa.chunked_array(chunks)
 
@@ -1058,7 +1062,9 @@ class NestedExtensionArray(ExtensionArray):
             for pa_field in chunk.type:
                 if pa_field.name not in fields:
                     struct_dict[pa_field.name] = chunk.field(pa_field.name)
-            struct_array = pa.StructArray.from_arrays(struct_dict.values(), struct_dict.keys())
+            struct_array = pa.StructArray.from_arrays(
+                struct_dict.values(), struct_dict.keys(), mask=chunk.is_null()
+            )
             chunks.append(struct_array)
         pa_array = pa.chunked_array(chunks)
 
